@@ -273,6 +273,9 @@ def check_case(c):
     res = Res()
     if c["mode"] == "prior-synth":
         c = dict(c, field=synth_field(c))
+    if c["field"]["noise"] == "white" and c["field"]["size_max"] > 1.5:
+        # runtime only: pixel-scale noise on a broad faint source makes one summit per noise peak (tens of components)
+        c = dict(c, field=dict(c["field"], size_max=1.5))
     F = fields.build_field(c["field"])
     what = "%s (noise=%s, %d truth sources, islandflux=%s max_summits=%s stage=%d regroup=%s)" % (
         c["mode"], c["field"]["noise"], len(F["truth"]), c["islandflux"], c["max_summits"], c["stage"], c["regroup"])
